@@ -173,6 +173,7 @@ func (s *TunnelServiceHandler) openReverseTunnel(stream tunnelpb.TunnelService_O
 
 	s.reverse.add(ch, key)
 	defer s.reverse.remove(ch)
+	verifYield("handler.registering")
 
 	rc := s.reverseChannelsForKey(key)
 	rc.add(ch, key)
@@ -195,6 +196,7 @@ func (s *TunnelServiceHandler) unregister(ch *tunnelChannel) {
 		// already removed
 		return
 	}
+	verifYield("handler.unregistering")
 
 	s.mu.Lock()
 	rc := s.reverseByKey[k]
